@@ -35,7 +35,7 @@ INV = [
     ("", "forall|i: int| %s <= i < reader.chain_log@.len() ==> (#[trigger] reader.chain_log@[i]).1.offset < block_offset" % FROM),
     ("C06,C07,C09:recovered_blocks_are_exactly_the_visited_units_with_entries_with_their_size_extent_owner_and_id", "log_sound(reader.chain_log@, %s, %s, mmap.file, next_block_id_in as int, starts, scan_end as int)" % (FROM, D)),
     ("C01,C06:recovered_blocks_are_in_file_order", "log_ordered(reader.chain_log@, %s)" % FROM),
-    ("C06,C07:no_visited_unit_with_entries_is_passed_over", "log_complete(reader.chain_log@, %s, %s, starts, scan_end as int)" % (FROM, D)),
+    ("C06,C07,C08:no_visited_unit_with_entries_is_passed_over", "log_complete(reader.chain_log@, %s, %s, starts, scan_end as int)" % (FROM, D)),
 ]
 _A = "log_in, reader.chain_log@, %s, %s, mmap.file" % (FROM, D)
 VISIT = ("assert(visit_step(log_in, reader.chain_log@, %s, mmap.file, next_block_id_in as int + st_in.len(), bo, scan_end as int)); " % D
@@ -46,7 +46,7 @@ VISIT = ("assert(visit_step(log_in, reader.chain_log@, %s, mmap.file, next_block
          + "starts = st_in.push(bo);")
 UNIT = dict(
     name="recovery_scan",
-    props=["C06", "C07", "C11", "C01", "C09"],
+    props=["C06", "C07", "C11", "C01", "C09", "C08"],
     prelude=["core_types.rs", "str_ext.rs", "engine.rs", "sys_model.rs"],
     assumptions=[
         "R14 region: the body of `for file_path in files.iter()` from `let mut block_offset` on, for one file; directory listing, file order (sort), mmap opening, the count rebuild and cursor hydration are other code",
@@ -74,8 +74,8 @@ UNIT = dict(
                  ("C06,C07:the_scan_visits_the_file_from_its_start_in_steps_of_one_unit_or_one_recorded_block_size", "path_ok(%s, ret.2@, ret.1@, ret.3@)" % D),
                  ("C06,C07,C09:recovered_blocks_are_exactly_the_visited_units_with_entries_with_their_size_extent_owner_and_id", "log_sound(final(reader).chain_log@, %s, %s, mmap.file, next_block_id_in as int, ret.2@, ret.3@)" % (FROM, D)),
                  ("C01,C06:recovered_blocks_are_in_file_order", "log_ordered(final(reader).chain_log@, %s)" % FROM),
-                 ("C06,C07:no_visited_unit_with_entries_is_passed_over", "log_complete(final(reader).chain_log@, %s, %s, ret.2@, ret.3@)" % (FROM, D)),
-                 ("C06,C07:the_scan_ends_only_at_the_end_of_the_file_or_at_a_damaged_unit", "ret.1@ %% UNIT == 0 && (ret.1@ + UNIT > ret.3@ || stop_unit(%s, ret.1@, ret.3@))" % D),
+                 ("C06,C07,C08:no_visited_unit_with_entries_is_passed_over", "log_complete(final(reader).chain_log@, %s, %s, ret.2@, ret.3@)" % (FROM, D)),
+                 ("C06,C07,C08:the_scan_ends_only_at_the_end_of_the_file_or_at_a_damaged_unit", "ret.1@ %% UNIT == 0 && (ret.1@ + UNIT > ret.3@ || stop_unit(%s, ret.1@, ret.3@))" % D),
                  ("C04,C06:earlier_chain_entries_are_kept", "final(reader).chain_log@.len() >= old(reader).chain_log@.len() && final(reader).chain_log@.subrange(0, %s) =~= old(reader).chain_log@" % FROM),
              ],
              hints=[
@@ -88,13 +88,13 @@ UNIT = dict(
              ],
              loops={
                  0: dict(kind="while", invariant=INV, decreases="scan_end - block_offset",
-                         ensures=[("C06,C07:the_scan_ends_only_at_the_end_of_the_file_or_at_a_damaged_unit", "block_offset + DEFAULT_BLOCK_SIZE > scan_end || stop_unit(%s, block_offset as int, scan_end as int)" % D)]),
+                         ensures=[("C06,C07,C08:the_scan_ends_only_at_the_end_of_the_file_or_at_a_damaged_unit", "block_offset + DEFAULT_BLOCK_SIZE > scan_end || stop_unit(%s, block_offset as int, scan_end as int)" % D)]),
                  1: dict(kind="loop", invariant=[
                      ("", "sys.files@.contains_key(mmap.file) && %s.len() <= 0x7fff_ffff_ffff" % D),
                      ("", "block_stub.offset == block_offset && block_stub.mmap == *mmap && block_offset <= 0x4000_0000 && block_limit <= 0x4000_0000 && block_limit == limit_of(%s, block_offset as int, scan_end as int)" % D),
                      ("", "in_block_off == used && entries_in_block <= used / 256"),
-                     ("C06,C07:extent_of_a_block_is_its_run_of_readable_entries", "extent(%s, block_offset as int, 0, block_limit as int) == (extent(%s, block_offset as int, used as int, block_limit as int).0, extent(%s, block_offset as int, used as int, block_limit as int).1 + entries_in_block as nat)" % (D, D, D)),
-                 ], ensures=[("C06,C07:extent_of_a_block_is_its_run_of_readable_entries", "used as int == extent(%s, block_offset as int, 0, block_limit as int).0 && entries_in_block as nat == extent(%s, block_offset as int, 0, block_limit as int).1" % (D, D))],
+                     ("C06,C07,C08:extent_of_a_block_is_its_run_of_readable_entries", "extent(%s, block_offset as int, 0, block_limit as int) == (extent(%s, block_offset as int, used as int, block_limit as int).0, extent(%s, block_offset as int, used as int, block_limit as int).1 + entries_in_block as nat)" % (D, D, D)),
+                 ], ensures=[("C06,C07,C08:extent_of_a_block_is_its_run_of_readable_entries", "used as int == extent(%s, block_offset as int, 0, block_limit as int).0 && entries_in_block as nat == extent(%s, block_offset as int, 0, block_limit as int).1" % (D, D))],
                     invariant_except_break=[("", "used < block_limit")], decreases="block_limit - in_block_off"),
              }),
     ],
